@@ -37,7 +37,7 @@ ASSUMPTIONS = [
     "all probes total, dictionaries never contain the LABREA.* switches (those are C16)",
     "'options it depends on' is over-approximated by the syntactic may-read set, so a hit is never demanded that the property does not promise",
 ]
-FLOORS = {"repeat_probes": (1500, 30000), "bound_checks": (800, 15000), "effect_sequences_checked": (150, 3000), "histories_needing_hits": (150, 3000),
+FLOORS = {"repeat_probes": (1500, 30000), "bound_checks": (800, 15000), "effect_sequences_checked": (150, 3000), "histories_needing_hits": (150, 3000), "rekeyed_overload_evaluations": (1200, 24000),
           "attach_family_evaluations": (1500, 30000), "attach_family_body_runs": (700, 14000), "attach_family_same_effect_attached_twice": (150, 3000)}
 SHARDS_QUICK = 4
 FEATURES = {"allopts": True, "preset_templates": False, "domains": False}
@@ -339,10 +339,104 @@ def attach_family(ctx, r, case):
                 ctx.nontrivial(spec_hash(script))
 
 
+def rekeyed_overloads(ctx, r, case):
+    """Implementations that are datasets themselves, registered BEFORE the dispatch exists (and before it is replaced),
+    then reached both through the dispatching parent and directly / through a shared dependency: each body still runs
+    once per distinct assignment of the options it reads - over the whole history, whichever way it was reached - and
+    an effect attached to the implementation the user holds runs once per run of its body."""
+    from labrea import Option, dataset
+
+    runs = {"base": [], "impl": [], "default": []}
+    eff_calls = {"early": 0, "late": 0}
+
+    def base_body(a=Option("A", 0)):
+        runs["base"].append(a)
+        return ("base", a)
+
+    base = dataset(base_body)
+
+    def early_eff(v):
+        eff_calls["early"] += 1
+
+    def late_eff(v):
+        eff_calls["late"] += 1
+
+    def impl_body(x=base, b=Option("B", 0)):
+        runs["impl"].append((x, b))
+        return ("impl", x, b)
+
+    impl = dataset(impl_body, effects=[early_eff])
+
+    def default_body(c=Option("C", 0)):
+        runs["default"].append(c)
+        return ("default", c)
+
+    script = []
+    first = r.choice(["none", "key"])
+    parent = dataset(default_body) if first == "none" else dataset(default_body, dispatch="E")
+    parent.register("alt", impl)
+    script.append(["dispatch-at-definition", first])
+    if r.random() < 0.5:
+        parent.register("other", Option("C", "other-impl"))
+    new_disp = r.choice(["D", "opt-default"])
+    parent.set_dispatch("D" if new_disp == "D" else Option("D", "none"))
+    script.append(["set_dispatch", new_disp])
+    late = r.random() < 0.6
+    if late:
+        impl.add_effects(late_eff)
+        script.append(["add_effects on the implementation"])
+
+    def consumer_body(p=parent, q=impl, z=base):
+        return ("consumer", p, q, z)
+
+    consumer = dataset(consumer_body)
+    seen = {"base": set(), "impl": set(), "default": set()}
+    trail = []
+    for step in range(r.choice([4, 6, 8])):
+        o = {}
+        if r.random() < 0.8:
+            o["D"] = r.choice(["alt", "alt", "none", "other"])
+        for k in ("A", "B", "C"):
+            if r.random() < 0.6:
+                o[k] = r.choice([1, 2])
+        subject = r.choice([consumer, consumer, parent, impl])
+        trail.append([o, "consumer" if subject is consumer else ("parent" if subject is parent else "impl")])
+        got = observe(subject.evaluate, copy.deepcopy(o))
+        ctx.evaluations += 1
+        ctx.count("rekeyed_overload_evaluations")
+        W = {"family": "rekeyed-overloads", "case": case, "shard": ctx.shard, "shards": ctx.shards, "script": script, "trail": trail}
+        if got[0] != "ok":
+            ctx.violation("rekeyed-overload-fails", f"step {step}: {trail[-1]} raised {short(got)}", W)
+            return
+        a, b, c, d = o.get("A", 0), o.get("B", 0), o.get("C", 0), o.get("D", "none" if new_disp != "D" else None)
+        needs_impl = subject is not parent or d == "alt"
+        needs_default = subject is not impl and d not in ("alt", "other") or (subject is not impl and d == "other" and "other" not in parent.overloads.lookup)
+        if needs_impl:
+            seen["base"].add(a)
+            seen["impl"].add((a, b))
+        if subject is consumer:
+            seen["base"].add(a)
+        if needs_default:
+            seen["default"].add((o.get("D", "<absent>"), c))  # (the parent's own store is keyed by its dispatch key too)
+        for name in runs:
+            if len(runs[name]) > len(seen[name]):
+                ctx.violation("runs-exceed-distinct-assignments", f"step {step}: body '{name}' has run {len(runs[name])} times over a history with only {len(seen[name])} distinct assignments of the "
+                              f"options it reads (script {script}, last {trail[-1]})", W)
+                return
+        expect_eff = len(runs["impl"])
+        if eff_calls["early"] != expect_eff or (late and eff_calls["late"] > expect_eff):
+            ctx.violation("effect-count", f"step {step}: the implementation's body ran {expect_eff} time(s) but its effects ran {eff_calls} (script {script})", W)
+            return
+    if len(runs["impl"]) and len(trail) > len(runs["impl"]):
+        ctx.nontrivial(spec_hash(["rekeyed", script, trail]))
+
+
 def run(ctx):
     rng = ctx.rng
     for i in range(ctx.n(600, 12000)):
         attach_family(ctx, case_rng(ctx, ("attach", i)), i)
+        if i % 2 == 0:
+            rekeyed_overloads(ctx, case_rng(ctx, ("rekey", i)), i)
     dicts = [d for d in directed.dictionaries() if not any(k.startswith("LABREA") for k in d)]
     for i, p in enumerate(directed.programs()):
         if i % ctx.shards != ctx.shard or not p["datasets"]:
@@ -366,6 +460,10 @@ def run(ctx):
 
 def replay(ctx, rep):
     w = rep["witness"]
+    if w.get("family") == "rekeyed-overloads":
+        ctx.shard, ctx.shards = w.get("shard", 0), w.get("shards", 1)
+        rekeyed_overloads(ctx, case_rng(ctx, ("rekey", w["case"])), w["case"])
+        return
     if "script" in w:
         ctx.shard, ctx.shards = w.get("shard", 0), w.get("shards", 1)
         attach_family(ctx, case_rng(ctx, ("attach", w["case"])), w["case"])
